@@ -4,7 +4,10 @@ import m1lib
 import molfacts
 import molgen
 
-SALTS = ['CCO.O', '[Na+].[Cl-]', 'CC(=O)[O-].[Na+]', 'C[N+](C)(C)C.[Br-]', 'CC(C)=O.O.O', 'OC(=O)CC(O)(CC(O)=O)C(O)=O.[K+]', 'c1ccccc1O.[Li+]', 'CCN.Cl', 'O.O.CC(N)C(=O)O']
+# isotope-labelled hydrogens (D, T) are hydrogens: atomic number 1 whatever the isotope; labelled waters are unbonded "heavy" atoms
+# only through their oxygen
+LABELLED = ['[2H]C([2H])([2H])O', '[2H]C([2H])(C)O', '[3H]c1ccccc1', '[2H]OC(=O)C', 'CC(N)C(=O)O.[2H]O[2H]', '[2H]N([2H])CC', 'C[13CH3]', '[2H]C(Cl)(Cl)Cl']
+SALTS = LABELLED + ['CCO.O', '[Na+].[Cl-]', 'CC(=O)[O-].[Na+]', 'C[N+](C)(C)C.[Br-]', 'CC(C)=O.O.O', 'OC(=O)CC(O)(CC(O)=O)C(O)=O.[K+]', 'c1ccccc1O.[Li+]', 'CCN.Cl', 'O.O.CC(N)C(=O)O']
 
 
 def heavy_degree(a):
